@@ -1,9 +1,9 @@
 # C01 — Message serialisation round-trips exactly and its size is exact (primitive and cursor layers; DESIGN 5.C01 L1-L2).
-from props import codec
+from props import codec, msgarray
 
 
 def jobs(tier):
-    return codec.codec_jobs(tier, want=('layout', 'roundtrip', 'writer', 'reader')) + codec.flat_jobs(tier)
+    return codec.codec_jobs(tier, want=('layout', 'roundtrip', 'writer', 'reader')) + codec.flat_jobs(tier) + msgarray.jobs(tier)
 
 
 def meta(tier):
